@@ -27,7 +27,7 @@ REQUIRED = {"eval.post": 1000, "runs_with_injected_fault": 200,
             "models_inputs_checked": 1000, "malformed_calls": 20}
 MIN_NONTRIVIAL = {"quick": 40, "thorough": 200}
 PLAN = [("faults", 900, 14000), ("degenerate", 500, 7000),
-        ("bounds", 300, 4000), ("misc", 300, 4000), ("malformed", 60, 120)]
+        ("bounds", 300, 4000), ("misc", 300, 4000), ("malformed", 60, 120), ("cross", 300, 6000)]
 
 
 def cases(tier, seed):
@@ -227,7 +227,10 @@ def make_spec(case):
 def run_case(case):
     if case["fam"] == "malformed":
         return run_malformed(case)
-    spec = make_spec(case)
+    if case["fam"] == "cross":
+        spec, _src = e2e.cross_spec(ID, case)
+    else:
+        spec = make_spec(case)
     n = spec["n"]
     o = spec.get("options") or {}
     limit = 5000 * (int(o.get("maxfev", 500 * n)) +
